@@ -98,6 +98,7 @@ type VCGen struct {
 	ghost       map[string]string
 	warnings    []string
 	retCount    int
+	inlineDepth int
 	imapBySort  map[string]*imapInfo
 	ilistBySort map[string]*ilistInfo
 }
@@ -324,6 +325,8 @@ func (g *VCGen) typeFact(term string, t types.Type) string {
 		if g.so.sortOf(t) == "Int" {
 			return fmt.Sprintf("(>= %s 0)", term)
 		}
+	case *types.Interface:
+		return fmt.Sprintf("(and (>= (if.tag %s) 0) (>= (if.ref %s) 0) (=> (= (if.tag %s) 0) (= (if.ref %s) 0)))", term, term, term, term)
 	}
 	return g.specialFact(term, t)
 }
